@@ -77,10 +77,23 @@ fn binom_cdf(n: u64, x: u64, p: f64) -> f64 {
     s.min(1.0)
 }
 
-fn judge_cell(ctx: &mut Ctx, cfg: &Json, name: &str, n: u64, acc: &Acc, rse_adv: f64, exact: bool, stats: &mut Vec<Json>) {
+/// Material bias tolerance in units of the advertised RSE (on top of it: 6 sd/sqrt(T) of sampling noise).
+/// Calibrated on the repaired tree: HLL (HIP, coupon, composite), CPC HIP and theta show |mean| <= 0.03 RSE;
+/// the published ICON polynomial has a real bias of about +0.09 RSE at lg_k = 4.
+const BIAS_MAT: f64 = 0.08;
+const BIAS_MAT_ICON: f64 = 0.15;
+
+fn judge_cell(ctx: &mut Ctx, cfg: &Json, name: &str, n: u64, acc: &Acc, rse_adv: f64, bias_mat: f64, exact: bool, stats: &mut Vec<Json>) {
     if acc.t < 50 {
         return;
     }
+    let dense_name;
+    let name = if cfg.bool("dense").unwrap_or(false) {
+        dense_name = format!("{} [dense]", name);
+        dense_name.as_str()
+    } else {
+        name
+    };
     let t = acc.t as f64;
     let mean = acc.sum / t;
     let var = (acc.sum2 / t - mean * mean).max(0.0);
@@ -88,22 +101,39 @@ fn judge_cell(ctx: &mut Ctx, cfg: &Json, name: &str, n: u64, acc: &Acc, rse_adv:
     let rms = (acc.sum2 / t).sqrt();
     ctx.evals(1);
     ctx.begin_case(cfg.clone().set("cell", name).set("cell_n", n));
+    {
+        // coverage: which family / path the cell belongs to and which regime it is in
+        let fam = name.split(' ').next().unwrap_or("?");
+        let path = if name.ends_with("merged") { "merged" } else { "streamed" };
+        ctx.cover(&format!("cells_{}_{}", fam, path));
+        ctx.cover(if exact { "cells_exact_regime" } else if acc.inexact >= 30 { "cells_estimation_regime" } else { "cells_near_exact_regime" });
+        ctx.cover_n("trials_judged", acc.t);
+    }
     if exact {
         if acc.max_abs > 1e-12 {
             ctx.violation("exact regime: estimate != number of distinct items", format!("{} n={}: max |est/n - 1| = {}", name, n, acc.max_abs));
         }
     } else {
-        let bias_tol = 0.15 * rse_adv + 6.0 * sd / t.sqrt();
+        let bias_tol = bias_mat * rse_adv + 6.0 * sd / t.sqrt();
+        if bias_tol > 0.0 {
+            ctx.cover_max("worst_bias_over_tolerance", mean.abs() / bias_tol);
+            if rse_adv > 0.0 && acc.inexact >= 30 {
+                ctx.cover_max("worst_bias_over_rse_in_estimation_regime", mean.abs() / rse_adv);
+            }
+        }
         if mean.abs() > bias_tol {
             ctx.violation(
                 "estimate is biased beyond sampling noise",
-                format!("{} n={}: mean relative error {:+.5} over {} trials (sd {:.5}), tolerance {:.5} (advertised RSE {:.5})", name, n, mean, acc.t, sd, bias_tol, rse_adv),
+                format!("{} n={}: mean relative error {:+.5} over {} trials (sd {:.5}), tolerance {:.5} = {} x advertised RSE {:.5} + 6 sd/sqrt(T)", name, n, mean, acc.t, sd, bias_tol, bias_mat, rse_adv),
             );
         }
         // When almost every trial is exact (n far below k), the sample rms is decided by whether or not one rare
         // event (two items sharing a coupon) occurred among the T trials: it is no estimate of the spread. The
         // clause is applied once at least 30 trials deviate; bias and coverage are judged on every cell.
         let spread_tol = 1.25 * rse_adv * (1.0 + 6.0 / (2.0 * t).sqrt());
+        if acc.inexact >= 30 && spread_tol > 0.0 {
+            ctx.cover_max("worst_rms_over_tolerance", rms / spread_tol);
+        }
         if rms > spread_tol && acc.inexact >= 30 {
             ctx.violation(
                 "spread of the estimate exceeds the advertised RSE",
@@ -114,6 +144,7 @@ fn judge_cell(ctx: &mut Ctx, cfg: &Json, name: &str, n: u64, acc: &Acc, rse_adv:
     for s in 0..3 {
         let p0 = NOMINAL[s] - TOL[s];
         let tail = binom_cdf(acc.t, acc.cover[s], p0);
+        ctx.cover_max(&format!("worst_coverage_shortfall_{}sigma", s + 1), NOMINAL[s] - acc.cover[s] as f64 / t);
         if tail < 1e-9 {
             ctx.violation(
                 "confidence interval covers the truth materially less often than nominal",
@@ -231,8 +262,8 @@ fn hll_config(ctx: &mut Ctx, case: &Json, stats: &mut Vec<Json>) {
         let sparse = nf < k / 8.0 * 0.75;
         let rse_hip = if sparse { (0.409 / 8192.0f64).max(1e-4) * 4.0 } else { 0.8326 / k.sqrt() };
         let rse_non = if sparse { (0.409 / 8192.0f64).max(1e-4) * 4.0 } else { 1.039 / k.sqrt() };
-        judge_cell(ctx, case, &format!("HLL lg_k={} {} streamed", lg_k, tname(t)), n, &acc_stream[ci], rse_hip, false, stats);
-        judge_cell(ctx, case, &format!("HLL lg_k={} {} merged", lg_k, tname(t)), n, &acc_merged[ci], rse_non, false, stats);
+        judge_cell(ctx, case, &format!("HLL lg_k={} {} streamed", lg_k, tname(t)), n, &acc_stream[ci], rse_hip, BIAS_MAT, false, stats);
+        judge_cell(ctx, case, &format!("HLL lg_k={} {} merged", lg_k, tname(t)), n, &acc_merged[ci], rse_non, BIAS_MAT, false, stats);
     }
 }
 
@@ -294,8 +325,8 @@ fn cpc_config(ctx: &mut Ctx, case: &Json, stats: &mut Vec<Json>) {
         }
     }
     for (ci, &n) in cps.iter().enumerate() {
-        judge_cell(ctx, case, &format!("CPC lg_k={} streamed", lg_k), n, &acc_stream[ci], 0.5887 / k.sqrt(), false, stats);
-        judge_cell(ctx, case, &format!("CPC lg_k={} merged", lg_k), n, &acc_merged[ci], 0.6931 / k.sqrt(), false, stats);
+        judge_cell(ctx, case, &format!("CPC lg_k={} streamed", lg_k), n, &acc_stream[ci], 0.5887 / k.sqrt(), BIAS_MAT, false, stats);
+        judge_cell(ctx, case, &format!("CPC lg_k={} merged", lg_k), n, &acc_merged[ci], 0.6931 / k.sqrt(), BIAS_MAT_ICON, false, stats);
     }
 }
 
@@ -364,7 +395,7 @@ fn theta_config(ctx: &mut Ctx, case: &Json, stats: &mut Vec<Json>) {
         let theta_eff = (p as f64).min(k / nf).min(1.0);
         let rse = if theta_eff >= 1.0 { 0.0 } else { ((1.0 - theta_eff) / (nf * theta_eff)).sqrt() };
         let exact = exact_cells[ci] && p >= 1.0;
-        judge_cell(ctx, case, &format!("theta lg_k={} p={}", lg_k, p), n, &acc[ci], rse, exact, stats);
+        judge_cell(ctx, case, &format!("theta lg_k={} p={}", lg_k, p), n, &acc[ci], rse, BIAS_MAT, exact, stats);
     }
 }
 
@@ -415,12 +446,27 @@ pub fn run(ctx: &mut Ctx) {
             configs.push(Json::obj().set("family", "theta").set("lg_k", lg).set("p", p));
         }
     }
+    // every configuration runs to 64k items with T trials; configurations with lg_k <= 8 additionally run a
+    // "dense" variant to 128 k items (at least 4096) with proportionally more trials: the estimation regime of a
+    // small sketch is reached early, and the advertised RSE there is large, so seeing a bias of a tenth of it
+    // takes tens of thousands of trials, which short streams make affordable
+    let mut all: Vec<Json> = vec![];
+    for c in configs {
+        let lg = c.u64("lg_k").unwrap_or(14);
+        all.push(c.clone().set("trials", trials).set("n_max", 65536u64));
+        let dense_n = (128u64 << lg).clamp(4096, 65536);
+        if dense_n < 65536 {
+            all.push(c.set("trials", trials * (65536 / dense_n) * 2).set("n_max", dense_n).set("dense", true));
+        }
+    }
+    // heaviest first, dealt round-robin, so that shards finish together
+    all.sort_by_key(|c| std::cmp::Reverse(c.u64("trials").unwrap_or(0) * c.u64("n_max").unwrap_or(0)));
     let mut stats = vec![];
-    for (i, c) in configs.into_iter().enumerate() {
+    for (i, c) in all.into_iter().enumerate() {
         if i % ctx.nshards != ctx.shard {
             continue;
         }
-        let c = c.set("trials", trials).set("n_max", 65536u64).set("seed", ctx.case_seed("c01", i as u64));
+        let c = c.set("seed", ctx.case_seed("c01", i as u64));
         run_case(ctx, &c, &mut stats);
         if ctx.samples.is_empty() {
             ctx.sample(c);
